@@ -18,6 +18,7 @@ RULE = ('cases = netlist (T1 slice, T2 shared-input, T3 small with state element
         'each injected value (all-0, all-1, complement, X) an overwriting callback; oracle = reference evaluation of the graph with that line cut '
         'and driven by the injected values; distinct_nontrivial = distinct (netlist, m, line, value, outputs) signatures where the injection changed an output')
 ASSUMPTIONS = ['the first callback argument may be a Line or a line index (operator.index is applied)',
+               'callbacks are passed as plain functions and (for half of the netlists) as callable objects whose truth value is False',
                'a gate without output line evaluates into scratch memory, which is not a signal: the callback may or may not be invoked for it',
                'memory reuse off (intermediate values stay addressable); X and - identified as in C02']
 
@@ -109,7 +110,16 @@ def check_case(res, case):
         obs = [(f'out{j}', opos[j], b.out_nodes[j].ins[0].index) for j in range(len(nl.outs))] + \
               [(f'st{k}', spos[k], b.st_nodes[k].ins[0].index) for k in range(nS)]
 
+        class FalsyCallable:
+            """a legal callable whose truth value is False (e.g. an empty container with __call__)"""
+            def __init__(self, f): self.f = f
+            def __call__(self, *a): return self.f(*a)
+            def __bool__(self): return False
+            def __len__(self): return 0
+        falsy = bool(common.h64(case['nl']) & 1)
+
         def run(cb):
+            if cb is not None and falsy: cb = FalsyCallable(cb)
             sim = LogicSim(c, sims=n, m=m, strip_forks=strip)
             for k in range(nI): lsim.assign_codes(sim, ipos[k], vals[k])
             for k in range(nS): lsim.assign_codes(sim, spos[k], vals[nI + k])
